@@ -21,7 +21,7 @@ from ..algebra_lin import linear_form
 FILESET = "typhon/files/fileset.py"
 TIMEUTILS = "typhon/utils/timeutils.py"
 TREES = "typhon/trees.py"
-EXPECT = {"C01.semiopen": 4, "C01.prune": 7, "C01.anchor": 3, "C01.exclude": 3, "C01.blacklist": 3, "C01.sortkey": 2, "C01.bundle": 2,
+EXPECT = {"C01.semiopen": 4, "C01.prune": 8, "C01.anchor": 3, "C01.exclude": 3, "C01.blacklist": 3, "C01.sortkey": 2, "C01.bundle": 2,
           "C01.trunc": 1, "C01.restable": 2, "C01.len": 3, "C01.pathstate": 1, "C01.reset": 1}
 
 US = {"microseconds": 1, "milliseconds": 1000, "seconds": 10 ** 6, "minutes": 60 * 10 ** 6, "hours": 3600 * 10 ** 6, "days": 86400 * 10 ** 6, "weeks": 7 * 86400 * 10 ** 6}
@@ -265,6 +265,27 @@ def rule_prune(ctx):
         ctx.ob("FileSet._get_search_dirs.unit", okacc, why,
                "the finest temporal unit among this and all upper directory levels (the directory's attributes include its parents')",
                node=cp[0], func=g)
+    # a level without placeholders is appended WITH a trailing separator: the next level globs for `<dir>*`
+    # (_get_matching_dirs), which would otherwise match the literal directory itself instead of its children
+    md = ctx.func(FILESET, "FileSet._get_matching_dirs")
+    globs = [c for c in calls_in(md.node, "glob") if c.args]
+    needs_sep = any("+ '*'" in str(norm(c.args[0])).replace('"', "'") or "+'*'" in str(norm(c.args[0])).replace('"', "'").replace(" ", "") for c in globs)
+    if not globs:
+        raise AnalysisError("_get_matching_dirs: glob call not found")
+    lp_ = [st for st in walk_no_nested(g.node) if isinstance(st, ast.For) and norm(st.iter) == "self._sub_dir_chunks"]
+    if len(lp_) == 1 and isinstance(lp_[0].target, ast.Name) and needs_sep:
+        chunk = lp_[0].target.id
+        lit = [c for c in calls_in(lp_[0], "join") if dotted(c.func) in ("posixpath.join", "os.path.join") and any(norm(a_) == chunk for a_ in c.args)
+               and not calls_in(c, "_get_time_resolution") and not any(c is x for st in lp_[0].body if isinstance(st, ast.Assign) and isinstance(st.targets[0], ast.Name)
+                                                                           for x in ast.walk(st.value) if any(isinstance(n_, ast.Name) and n_.id == st.targets[0].id for n_ in ast.walk(st.value)))]
+        if len(lit) != 1:
+            raise AnalysisError("_get_search_dirs: the join that appends a literal level was not found (%d candidates)" % len(lit))
+        j = lit[0]
+        last = j.args[-1]
+        oksep = (isinstance(last, ast.Constant) and last.value == "") or (isinstance(parent(j), ast.BinOp) and isinstance(parent(j).op, ast.Add)
+                                                                         and isinstance(parent(j).right, ast.Constant) and parent(j).right.value in ("/", ))
+        ctx.ob("FileSet._get_search_dirs.literal_level", oksep, "%s; the next level globs for %s" % (norm(j), norm(globs[0].args[0])),
+               "posixpath.join(dir, level, '') - the directory handed to the next level ends with the separator", node=j, func=g)
     # _check_placeholders comparison + model
     h = ctx.func(FILESET, "FileSet._check_placeholders")
     hs, he = h.params[2], h.params[3]
